@@ -94,6 +94,20 @@ Check (C16_dispatch_no_panic : forall i dst tag now,
   (if_ether i = true \/ match dst with V4 a => v4_is_multicast a = false | V6 _ => True end) ->
   nh_dispatch_ip i dst tag now <> Panic).
 
+Check (C16_sim_refines_events : forall evs st st' tfr,
+  sim_trace st evs = Ok (st', tfr) ->
+  exists nevs, nh_run (sim_if st) nevs = Ok (sim_if st', tfr)).
+
+Check (C16_sim_discovery_rate : forall ether hw cap rcap qcap kinds evs st tfr a t1 b t2 c,
+  sim_trace (sim_init ether hw cap rcap qcap kinds) evs = Ok (st, tfr) ->
+  req_times tfr = a ++ t1 :: b ++ t2 :: c ->
+  t1 + 1000000 <= t2).
+
+Check (C16_sim_cache_bounded : forall ether hw cap rcap qcap kinds evs st tfr, 1 <= cap ->
+  sim_trace (sim_init ether hw cap rcap qcap kinds) evs = Ok (st, tfr) ->
+  Z.of_nat (length (c_storage (if_cache (sim_if st)))) <= cap /\
+  NoDup (map fst (c_storage (if_cache (sim_if st))))).
+
 Check (C16_example :
   exists i,
     nh_run (nh_init true EX_OWN 2) c16_example_evs =
